@@ -228,6 +228,22 @@ CHECKS = {
             "trusted: mc/snap.py snapshot (public accessors, declared/used attributes and class of every state, dict types, "
             "registries) plus two behavioural probes; exceptions raised by an operation are other properties' business",
             "DESIGN.md §4 C18"),
+    "C19": ("exhaustive enumeration: all k<=1 scenario specs with default parameters; rich scenarios x 6 time windows x every "
+            "boolean draw flag of the introspected parameter tree (k<=1 quick, k<=2 thorough) x id filters for totality; rich "
+            "scenarios x windows x id filters in the exact configuration with the drawn patch multiset compared to the model's "
+            "occupancies; all (group, field) pairs of the parameter tree on fresh trees and after every single nested "
+            "assignment for propagation",
+            "(a) draw + render on an Agg canvas must not raise: ~950 single-deviation scenarios, 9 rich scenarios (late "
+            "obstacles, set-based, phantom, environment, point-mass, uncertain states, fixtures with intersections, signs, "
+            "complex lights) x windows before/inside/after the horizons x ~200 boolean flags x lanelet / planning-problem id "
+            "filters. (b) patches collected between draw and render == occupancy_at_time(time_begin) of every obstacle (+ later "
+            "window steps for set-based predictions), lanelet fill collection == all / selected lanelet polygons. (c) setting a "
+            "field on a group reaches every nested group that declares it and changes nothing else, also after a nested group "
+            "was set individually.",
+            "trusted: matplotlib Agg; patch canonicalisation (rounded vertices, rotation-normalised). Windows whose end "
+            "coincides with a set-based occupancy step are not generated; phantom later steps optional; uncertain-position "
+            "states take part in totality only",
+            "DESIGN.md §4 C19"),
 }
 
 NOT_YET = {}
